@@ -533,6 +533,19 @@ def run(ctx):
                 (name.split('.')[-1] in ('today', 'now', 'getpid', 'urandom', 'uuid4', 'uuid1'))
             if not hit:
                 continue
+            if name == 'id':
+                # an object id used purely as a look-up key (dict key, .get()/[] key,
+                # membership) never reaches a result: only its equality matters
+                par = call._parent
+                as_key = (isinstance(par, ast.DictComp) and par.key is call) or \
+                    (isinstance(par, ast.Dict) and any(k is call for k in par.keys)) or \
+                    (isinstance(par, ast.Subscript) and par.slice is call) or \
+                    (isinstance(par, ast.Call) and last_attr(par) in ('get', 'pop', 'setdefault')
+                     and par.args and par.args[0] is call) or \
+                    (isinstance(par, ast.Compare) and isinstance(par.ops[0], (ast.In, ast.NotIn, ast.Eq,
+                                                                                ast.NotEq, ast.Is, ast.IsNot)))
+                if as_key:
+                    continue
             key = (fid[0], fid[1], name)
             if key in accepted:
                 seen_acc.add(key)
@@ -666,6 +679,41 @@ def run(ctx):
     ok = len(withs) == 1 and 'readlines()' in norm(withs[0])
     ctx.ob('C03.R4', 'reader:consumes-lines-only', ok,
            'the record reader takes all lines at once from either source', imod, rl_fn)
+    # "the same input repeated": calculate_pka on a container that has been
+    # calculated before must start from the same state.  The determinant lists
+    # are only ever appended to by the set_*_determinants routines.
+    ccm3 = prog.mod('conformation_container')
+    cpk = ccm3.func('ConformationContainer.calculate_pka')
+    appenders = [c for c in calls_in(cpk, nested=False)
+                 if (call_name(c) or '').split('.')[-1] in ('set_backbone_determinants', 'set_ion_determinants',
+                                                            'set_determinants')]
+    first_app = min((c.lineno for c in appenders), default=None)
+    resets = [n for n in walk_no_nested(cpk) if isinstance(n, ast.Assign)
+              and isinstance(n.targets[0], ast.Attribute) and n.targets[0].attr == 'determinants'
+              and (first_app is None or n.lineno < first_app)]
+    ctx.ob('C03.R1', 'recalculation:determinants-reset-before-append', bool(resets) or not appenders,
+           'ConformationContainer.calculate_pka empties the determinant lists of its groups before '
+           'the set_*_determinants routines append to them; without that a second call on the same '
+           'container reports every contribution twice (%d appending calls, %d resets before them)'
+           % (len(appenders), len(resets)), ccm3, appenders[0] if appenders else cpk)
+    # path vs. stream: a path is opened in text mode with universal newlines,
+    # a stream is used as it is; the reader must not depend on that difference
+    ofr = imod.func('open_file_for_reading')
+    text_mode_opens = [c for c in calls_in(ofr, nested=False) if call_name(c) == 'open'
+                       and not any(k.arg == 'newline' for k in c.keywords)]
+    stream_as_is = any(isinstance(r, ast.Return) and 'nullcontext' in norm(r) for r in walk_no_nested(ofr))
+    rlf = imod.func('get_atom_lines_from_pdb')
+    normalises = any(isinstance(c.func, ast.Attribute) and c.func.attr == 'replace' and c.args
+                     and isinstance(c.args[0], ast.Constant) and c.args[0].value in ('\r', '\r\n')
+                     for c in calls_in(rlf, nested=False))
+    ctx.ob('C03.R4', 'stream-and-path:same-newline-translation',
+           not (text_mode_opens and stream_as_is) or normalises,
+           'a path is opened with universal-newline translation (%d open() calls without newline=) '
+           'while a stream is handed through unchanged, and the reader splits on whatever the source '
+           'delivers: the same content with bare CR line ends gives all records from a path and a '
+           'single line from io.StringIO (reader normalises line ends itself: %s)'
+           % (len(text_mode_opens), normalises), imod, ofr)
+
     # options are shared by all inputs of one invocation
     common.check_options_readonly(ctx, 'C03.R1', prog)
 
